@@ -33,8 +33,8 @@ def unquote (b : Bytes) : Option Bytes :=
 /-- `json.Unmarshal(body, &key)` for the key kinds of the harness; `none` = unmarshal error -/
 def parseKey (kk : KeyKind) (b : Bytes) : Option Nat :=
   match kk with
-  | .vk | .u64 => Codec.parseNat b
-  | .i64 =>
+  | .vk | .u64 | .uint => Codec.parseNat b
+  | .i64 | .int =>
       match b with
       | 45 :: rest => (Codec.parseNat rest).bind fun n => if n ≤ Codec.i64bias ∧ n ≠ 0 then some (Codec.i64bias - n) else none
       | _ => (Codec.parseNat b).map (· + Codec.i64bias)
@@ -43,7 +43,7 @@ def parseKey (kk : KeyKind) (b : Bytes) : Option Nat :=
       | some s =>
           if s.all (fun c => 97 ≤ c && c ≤ 122) then some (s.foldl (fun acc c => acc * 26 + (c.toNat - 97)) 0) else none
       | none => none
-  | .bytes => none
+  | .bytes | .sk => none
 
 /-- strictly ascending under the loader's key order (`desc` = a reversed `KeyCompare`) -/
 def ascending (desc : Bool) : List Nat → Bool
